@@ -44,6 +44,13 @@ def plan(tier, seed):
             'how': how, 'point': point, 'job_kind': kind, 'external': ext, 'nproc': nproc,
             'T_job': rng.choice([0.3, 1.0]), 'T': 2.0,
             'others': 0 if nproc == 1 else rng.choice([1, nproc - 1]), 'other_dur': 0.6}})
+    # the worker dies after close(): detection is then up to the result handler's shutdown loop
+    for (nproc, how, T) in ((1, 'sig:9', 1.0), (2, 'exit:1', 0.3)) if tier == 'quick' else \
+            ((1, 'sig:9', 1.0), (2, 'exit:1', 0.3), (1, 'sig:11', 0.3), (3, 'exit:70', 2.0),
+             (1, 'exit:0', 1.0)):
+        specs.append({'lane': 'real', 'after_close': True, 'timeout': 120, 'params': {
+            'nproc': nproc, 'how': how, 'T_job': T, 'T': 2.0, 'delay': 1.0,
+            'others': 0 if nproc == 1 else 2}})
     # negative scenarios: recycling with long map/imap jobs - nothing may be reported lost
     for mt in ((1, 2) if tier == 'quick' else (1, 2, 5)):
         specs.append({'lane': 'real', 'neg': True, 'timeout': 150, 'params': {
@@ -58,6 +65,8 @@ def run_spec(spec, rec):
     p = spec['params']
     if spec.get('neg'):
         return run_negative(spec, rec)
+    if spec.get('after_close'):
+        return run_after_close(spec, rec)
     r = real.run_scenario('vmon.real_pool', 'sc_worker_death', p, timeout=spec['timeout'] - 25)
     obs, ev = r['obs'], r['events']
     if r['status'] == 'scenario_error':
@@ -143,3 +152,40 @@ def run_negative(spec, rec):
             rec.violation('job_failed_because_of_recycling', dict(attrs, job_kind=job['kind']),
                           got=got, params=p)
     rec.sig(['recycle-negative', p['maxtasks']])
+
+
+def run_after_close(spec, rec):
+    p = spec['params']
+    r = real.run_scenario('vmon.real_pool', 'sc_death_after_close', p, timeout=spec['timeout'] - 25)
+    obs, ev = r['obs'], r['events']
+    if r['status'] == 'scenario_error':
+        raise RuntimeError('scenario error: ' + obs.get('scenario_exception', r['stderr'][-2000:]))
+    rec.case()
+    rec.count('real:death_after_close_scenarios')
+    attrs = {'lane': 'real', 'after_close': True, 'cause': p['how'].split(':')[0],
+             'last_worker': p['nproc'] == 1}
+    if r['status'] != 'ok':
+        rec.violation('host_process_died' if r['status'] == 'died' else 'pool_hung_after_worker_death',
+                      attrs, rc=r['rc'], obs=obs, stderr=r['stderr'][-4000:], params=p)
+        return
+    oc = obs['outcome']
+    want = human_status(p['how'])
+    if oc[0] == 'unresolved':
+        rec.violation('loss_never_reported', attrs, params=p, obs=obs)
+    elif not (oc[0] == 'exc' and oc[1] == 'WorkerLostError'):
+        rec.violation('lost_job_wrong_outcome', attrs, outcome=oc, params=p)
+    else:
+        rec.count('real:losses_reported')
+        if want not in oc[2]:
+            rec.violation('loss_message_wrong_status', attrs, msg=oc[2], want=want)
+        t_dying = next((e['t'] for e in ev if e['k'] == 'task_dying'), None)
+        if t_dying is not None and obs['t_resolved'] - t_dying < p['T_job'] - 0.02:
+            rec.violation('loss_reported_before_grace_period', attrs,
+                          dt=obs['t_resolved'] - t_dying, T=p['T_job'])
+    for o in obs['others']:
+        if o[0] != 'ok':
+            rec.violation('other_job_failed', attrs, outcome=o, params=p)
+    if not obs['join_returned']:
+        rec.violation('join_hung_after_worker_death', attrs, obs=obs, params=p)
+    rec.sig(['death-after-close', p['how'], p['nproc'], p['T_job']])
+    rec.sample({'params': p, 'outcome': oc, 'join_wall': obs.get('join_wall')})
